@@ -3,22 +3,26 @@ import Pyc.Proofs.Collateral
 /-! # C13 — collateral is adequate, key-locked and balanced
 
 Property theorems only.  The model (`Pyc/Model/Collateral.lean`) transliterates `_should_add_collateral_return`,
-`_set_collateral_return` and the collateral field of `_build_tx_body` of pycardano/txbuilder.py.
+`_set_collateral_return` and the collateral field of `_build_tx_body` of pycardano/txbuilder.py, as repaired by
+f40c521 (a candidate already in `self.collaterals` is not taken again), 81c8cba (`max_collateral_inputs` enforced)
+and 3308efc (the collateral amount is rounded up).
 `run p st = .ok r`: the call returned; `r.collaterals` is `builder.collaterals` (a list, WITH multiplicity),
 `bodyCollateral r.collaterals` is what the transaction body names (the ordered set drops repeats: what the ledger
 sees), `r.ret` / `r.total` are `_collateral_return` / `_total_collateral`.  `coinSum` / `qtySum` are Σ over a list.
 `st.explicit = []` = the collateral is chosen automatically.
 
-Four statements of the property are FALSE of the code as it is; they are kept as `_goal`, with the proved
-`_partial` under an explicit extra hypothesis and a machine-checked `_counterexample`:
-* `collat_distinct` / `collat_total_distinct`: the three candidate lists are walked without a seen-set;
-* `collat_count`: `max_collateral_inputs` is never read;
-* `collat_percent`: `* percent // 100` floors where the ledger's `collateral * 100 ≥ fee * percent` needs the ceiling
-  (off by less than one lovelace, only when the fee equals `max_tx_fee`).
-The fee of the transaction is not part of the model: the adequacy theorems quantify over every `fee ≤ max_tx_fee`.
-(`builder.fee_buffer` can push the fee of a built transaction above `max_tx_fee`: finding KF-C13-fee-buffer of the
-harness, outside this hypothesis.)  Collateral supplied by the caller (`st.explicit ≠ []`) is passed through
-unchecked; `collat_total`, `collat_covers`, `collat_percent`, `return_*` hold for it as well. -/
+Hypotheses that remain, and why:
+* `RefConsistent (inputs ++ potential ++ addrUtxos)` (distinctness, the ledger's balance): the membership test of the
+  repaired loop is `UTxO.__eq__` (input AND output), so two entries that share a `TransactionInput` but show different
+  outputs — inconsistent views of the ledger, where a reference identifies one output — are both taken
+  (`inconsistent_view_taken_twice`).  The same UTxO (object) reachable through several lists satisfies it.
+* collateral supplied by the caller (`st.explicit ≠ []`) is passed through: a caller who lists one UTxO twice still
+  gets it summed twice (`explicit_duplicate_counted_twice`); `collat_total_distinct_explicit` asks for distinct
+  references.  The limit, the total, adequacy and the return theorems hold for explicit collateral as well.
+* `0 < amt` for "at least one collateral input" (a collateral percentage of 0 requires none).
+The fee of the transaction is not part of the model: adequacy quantifies over every `fee ≤ max_tx_fee`
+(`builder.fee_buffer` can push the fee of a built transaction above it: known finding KF-C13-fee-buffer of the
+harness, outside this hypothesis). -/
 
 namespace Pyc.C13
 open Pyc Pyc.Collateral
@@ -32,7 +36,7 @@ theorem auto_collaterals (p : Params) (st : State) (r : Result) (ha : st.explici
   · exact Or.inl ha
   · right
     rw [colsOf_auto p st addr amt ha] at h4
-    exact ⟨addr, amt, h2, h3, (finish_ok _ _ _ _ _ _ h4).1⟩
+    exact ⟨addr, amt, h2, h3, (finish_ok _ _ _ _ _ _ _ h4).1⟩
 
 /-- automatically chosen collateral inputs are never at script addresses and hold more than 2 ADA -/
 theorem collat_key_locked (p : Params) (st : State) (r : Result) (ha : st.explicit = []) (h : run p st = .ok r) :
@@ -63,7 +67,7 @@ theorem ret_iff_total (p : Params) (st : State) (r : Result) (h : run p st = .ok
     r.ret.isSome = r.total.isSome := by
   rcases run_ok p st r h with ⟨_, rfl⟩ | ⟨addr, amt, _, _, _, h4⟩
   · rfl
-  · rcases (finish_ok _ _ _ _ _ _ h4).2.2 with ⟨h1, h2, _⟩ | ⟨h1, h2, _⟩ <;> simp [h1, h2]
+  · rcases (finish_ok _ _ _ _ _ _ _ h4).2.2.2 with ⟨h1, h2, _⟩ | ⟨h1, h2, _⟩ <;> simp [h1, h2]
 
 /-- when a total collateral is declared: a return output exists, it goes to the return address,
 Σ collateral inputs (as the LIST the builder holds, with multiplicity) − return = total in ADA, and the return
@@ -75,7 +79,7 @@ theorem collat_total (p : Params) (st : State) (r : Result) (t : Int) (h : run p
   rcases run_ok p st r h with ⟨_, rfl⟩ | ⟨addr, amt, _, h2, _, h4⟩
   · cases ht
   · generalize colsOf p st addr amt = cols at h4
-    obtain ⟨hc, _, hr⟩ := finish_ok _ _ _ _ _ _ h4
+    obtain ⟨hc, _, _, hr⟩ := finish_ok _ _ _ _ _ _ _ h4
     rcases hr with ⟨_, h', _⟩ | ⟨hret, htot, _, _⟩
     · rw [h'] at ht; cases ht
     · rw [htot] at ht; cases ht
@@ -87,7 +91,7 @@ theorem collat_total (p : Params) (st : State) (r : Result) (t : Int) (h : run p
         simp only [retOutput]
         rw [subInt_qty _ _ w, q]
 
-/-- without a declared total nothing is returned: the whole Σ is forfeitable, and it covers the collateral amount -/
+/-- the collateral amount is covered by Σ collateral inputs (all of it is forfeitable when nothing is returned) -/
 theorem collat_covers (p : Params) (st : State) (r : Result) (addr : Bytes) (amt : Int) (h : run p st = .ok r)
     (hs : st.hasScripts = true) (hr : st.retAddr = some addr) (hc : collateralAmount p st.refScriptSize = some amt) :
     amt ≤ coinSum r.collaterals := by
@@ -95,79 +99,67 @@ theorem collat_covers (p : Params) (st : State) (r : Result) (addr : Bytes) (amt
   · rw [hs] at h0; cases h0
   · rw [hr] at h0; cases h0
   · rw [hc] at h3; cases h3
-    obtain ⟨hcols, hle, _⟩ := finish_ok _ _ _ _ _ _ h4
+    obtain ⟨hcols, _, hle, _⟩ := finish_ok _ _ _ _ _ _ _ h4
     rw [hcols]; exact hle
 
 /-! ## distinctness -/
 
-/-- GOAL: the automatically chosen collateral inputs are pairwise distinct UTxOs. -/
-def collat_distinct_goal : Prop :=
-  ∀ (p : Params) (st : State) (r : Result), st.explicit = [] → run p st = .ok r → (r.collaterals.map Utxo.ref).Nodup
-
-/-- proved part: when no UTxO is reachable twice through the candidate lists (pairwise disjoint, each without
-repeats), the chosen collateral inputs are pairwise distinct -/
-theorem collat_distinct_partial (p : Params) (st : State) (r : Result) (ha : st.explicit = [])
-    (hd : ((st.inputs ++ st.potential ++ st.addrUtxos).map Utxo.ref).Nodup) (h : run p st = .ok r) :
+/-- the automatically chosen collateral inputs are pairwise distinct UTxOs (distinct `TransactionInput`s), whenever
+the three candidate lists are views of one ledger state — in particular when the same UTxO is reachable as input,
+potential input and address UTxO -/
+theorem collat_distinct (p : Params) (st : State) (r : Result) (ha : st.explicit = [])
+    (hcons : RefConsistent (st.inputs ++ st.potential ++ st.addrUtxos)) (h : run p st = .ok r) :
     (r.collaterals.map Utxo.ref).Nodup := by
   rcases auto_collaterals p st r ha h with h0 | ⟨addr, amt, _, _, hc⟩
   · rw [h0]; simp
-  · rw [hc]
-    have hs := (selectAuto_sublist p.cpb amt st.threshold addr st).map Utxo.ref
-    have hp := (popOrders_perm st).map Utxo.ref
-    exact (hp.symm.nodup hd).sublist hs
+  · rw [hc]; exact selectAuto_nodup _ _ _ _ _ hcons
 
-/-! concrete witnesses: fee parameters with `max_tx_fee = 2 000 000` (constant term only), 150 %:
-collateral amount 3 000 000; `uA` (2.5 ADA) and `uC` (2.6 ADA) sit at an enterprise key address -/
+/-- hence the body names exactly the builder's list -/
+theorem body_is_list (p : Params) (st : State) (r : Result) (ha : st.explicit = [])
+    (hcons : RefConsistent (st.inputs ++ st.potential ++ st.addrUtxos)) (h : run p st = .ok r) :
+    bodyCollateral r.collaterals = r.collaterals :=
+  bodyCollateral_of_nodup _ (collat_distinct p st r ha hcons h)
 
-def cxFee (b : Int) : FeeParams :=
-  { a := ⟨0, 1⟩, b := ⟨b, 1⟩, priceStep := ⟨0, 1⟩, priceMem := ⟨0, 1⟩, maxTxSize := 16384, maxTxExSteps := 0,
-    maxTxExMem := 0 }
-def cxParams : Params := { fee := cxFee 2000000, percent := 150, cpb := 4310, maxCollateralInputs := 1 }
-def keyAddr : Bytes := [0x60, 1, 2, 3]
-def uA : Utxo := { txid := [0xaa], ix := 0, out := { addr := keyAddr, amount := ⟨2500000, []⟩ } }
-def uC : Utxo := { txid := [0xcc], ix := 1, out := { addr := keyAddr, amount := ⟨2600000, [([7], [([1], 5)])]⟩ } }
-def uBig : Utxo := { txid := [0xbb], ix := 0, out := { addr := keyAddr, amount := ⟨10000000, []⟩ } }
-
-/-- `uA` is a transaction input and also one of the UTxOs the chain index lists at the return address -/
-def stDup : State :=
-  { inputs := [uA], potential := [], addrUtxos := [uA], explicit := [], hasScripts := true, retAddr := some keyAddr,
-    threshold := 1000000, refScriptSize := 0 }
-
-/-- `builder.collaterals = [uA, uA]`, return 2 000 000, declared total 3 000 000 — from one UTxO of 2 500 000 -/
-theorem stDup_run : run cxParams stDup =
-    .ok ⟨[uA, uA], some { addr := keyAddr, amount := ⟨2000000, []⟩ }, some 3000000⟩ :=
-  eq_ok_of_okResult (by decide +kernel)
-
-theorem collat_distinct_counterexample : ¬ collat_distinct_goal := by
-  intro h
-  have := h cxParams stDup _ rfl stDup_run
-  revert this; decide +kernel
-
-/-- GOAL: the balance the ledger computes — Σ over the DISTINCT collateral inputs of the body − return — equals the
-declared total collateral. -/
-def collat_total_distinct_goal : Prop :=
-  ∀ (p : Params) (st : State) (r : Result) (t : Int) (o : Output), st.explicit = [] → run p st = .ok r →
-    r.total = some t → r.ret = some o → coinSum (bodyCollateral r.collaterals) - o.amount.coin = t
-
-/-- proved part: under disjoint candidate lists the body names exactly the builder's list, and the ledger's balance
-is the declared total; the return carries exactly the assets of the distinct inputs -/
-theorem collat_total_distinct_partial (p : Params) (st : State) (r : Result) (t : Int) (o : Output)
-    (ha : st.explicit = []) (hd : ((st.inputs ++ st.potential ++ st.addrUtxos).map Utxo.ref).Nodup)
+/-- the balance the ledger computes — Σ over the DISTINCT collateral inputs of the body − return — equals the
+declared total collateral, and the return carries exactly the assets of the distinct inputs -/
+theorem collat_total_distinct (p : Params) (st : State) (r : Result) (t : Int) (o : Output)
+    (ha : st.explicit = []) (hcons : RefConsistent (st.inputs ++ st.potential ++ st.addrUtxos))
     (h : run p st = .ok r) (ht : r.total = some t) (ho : r.ret = some o) :
-    bodyCollateral r.collaterals = r.collaterals ∧
     coinSum (bodyCollateral r.collaterals) - o.amount.coin = t ∧
     ((∀ u ∈ r.collaterals, Value.WF u.out.amount) →
       ∀ pol n, Value.qty o.amount pol n = qtySum (bodyCollateral r.collaterals) pol n) := by
-  have hb := bodyCollateral_of_nodup _ (collat_distinct_partial p st r ha hd h)
   obtain ⟨o', h1, _, h3, h4⟩ := collat_total p st r t h ht
   rw [ho] at h1; cases h1
-  rw [hb]
-  exact ⟨rfl, h3, h4⟩
+  rw [body_is_list p st r ha hcons h]
+  exact ⟨h3, h4⟩
 
-theorem collat_total_distinct_counterexample : ¬ collat_total_distinct_goal := by
-  intro h
-  have := h cxParams stDup _ 3000000 { addr := keyAddr, amount := ⟨2000000, []⟩ } rfl stDup_run rfl rfl
-  revert this; decide +kernel
+/-- the same for collateral supplied by the caller, provided the caller listed pairwise distinct references -/
+theorem collat_total_distinct_explicit (p : Params) (st : State) (r : Result) (t : Int) (o : Output)
+    (hd : (st.explicit.map Utxo.ref).Nodup) (hne : st.explicit ≠ [])
+    (h : run p st = .ok r) (ht : r.total = some t) (ho : r.ret = some o) :
+    r.collaterals = st.explicit ∧ coinSum (bodyCollateral r.collaterals) - o.amount.coin = t := by
+  have hc : r.collaterals = st.explicit := by
+    rcases run_ok p st r h with ⟨_, rfl⟩ | ⟨addr, amt, _, _, _, h4⟩
+    · rfl
+    · have : colsOf p st addr amt = st.explicit := by
+        cases he : st.explicit with
+        | nil => exact absurd he hne
+        | cons a l => simp [colsOf, he]
+      rw [this] at h4
+      exact (finish_ok _ _ _ _ _ _ _ h4).1
+  obtain ⟨o', h1, _, h3, _⟩ := collat_total p st r t h ht
+  rw [ho] at h1; cases h1
+  refine ⟨hc, ?_⟩
+  rw [bodyCollateral_of_nodup _ (hc ▸ hd)]
+  exact h3
+
+/-- the ledger's view of adequacy: Σ over the distinct collateral inputs covers the collateral amount -/
+theorem collat_covers_distinct (p : Params) (st : State) (r : Result) (addr : Bytes) (amt : Int)
+    (ha : st.explicit = []) (hcons : RefConsistent (st.inputs ++ st.potential ++ st.addrUtxos))
+    (h : run p st = .ok r) (hs : st.hasScripts = true) (hr : st.retAddr = some addr)
+    (hc : collateralAmount p st.refScriptSize = some amt) : amt ≤ coinSum (bodyCollateral r.collaterals) := by
+  rw [body_is_list p st r ha hcons h]
+  exact collat_covers p st r addr amt h hs hr hc
 
 /-- whatever the lists, the body itself names pairwise distinct inputs, each of them one of the builder's, and
 every UTxO of the builder's list is named -/
@@ -176,21 +168,75 @@ theorem body_distinct (cols : List Utxo) :
     ∀ u ∈ cols, ∃ v ∈ bodyCollateral cols, v.ref = u.ref :=
   ⟨(dedupRef_nodup cols []).1, dedupRef_sublist cols [], fun u hu => dedupRef_mem cols [] u hu (by simp)⟩
 
+/-! concrete witnesses: fee parameters with `max_tx_fee = 2 000 000` (constant term only), 150 %:
+collateral amount 3 000 000; `uA` (2.5 ADA) and `uC` (2.6 ADA) sit at an enterprise key address -/
+
+def cxFee (b : Int) : FeeParams :=
+  { a := ⟨0, 1⟩, b := ⟨b, 1⟩, priceStep := ⟨0, 1⟩, priceMem := ⟨0, 1⟩, maxTxSize := 16384, maxTxExSteps := 0,
+    maxTxExMem := 0 }
+def cxParams (mx : Nat) : Params := { fee := cxFee 2000000, percent := 150, cpb := 4310, maxCollateralInputs := mx }
+def keyAddr : Bytes := [0x60, 1, 2, 3]
+def uA : Utxo := { txid := [0xaa], ix := 0, out := { addr := keyAddr, amount := ⟨2500000, []⟩ } }
+/-- the reference of `uA` shown with a different output (a stale view) -/
+def uA' : Utxo := { txid := [0xaa], ix := 0, out := { addr := keyAddr, amount := ⟨2600000, []⟩ } }
+def uC : Utxo := { txid := [0xcc], ix := 1, out := { addr := keyAddr, amount := ⟨2600000, [([7], [([1], 5)])]⟩ } }
+def uBig : Utxo := { txid := [0xbb], ix := 0, out := { addr := keyAddr, amount := ⟨10000000, []⟩ } }
+
+def stBase : State :=
+  { inputs := [], potential := [], addrUtxos := [], explicit := [], hasScripts := true, retAddr := some keyAddr,
+    threshold := 1000000, refScriptSize := 0 }
+
+/-- regression witness of f40c521: `uA` is a transaction input and also one of the UTxOs the chain index lists at
+the return address (with `uBig`); it is taken once, then `uBig` -/
+example : RefConsistent ([uA] ++ [] ++ [uBig, uA]) ∧
+    okResult (run (cxParams 3) { stBase with inputs := [uA], addrUtxos := [uBig, uA] }) =
+      some ⟨[uA, uBig], some { addr := keyAddr, amount := ⟨9500000, []⟩ }, some 3000000⟩ := by
+  refine ⟨?_, by decide +kernel⟩
+  intro u hu v hv
+  simp only [List.append_nil, List.cons_append, List.nil_append, List.mem_cons, List.not_mem_nil, or_false] at hu hv
+  rcases hu with rfl | rfl | rfl <;> rcases hv with rfl | rfl | rfl <;> decide +kernel
+
+/-- alone, the doubly reachable `uA` is now insufficient instead of being counted twice -/
+example : errOf (run (cxParams 3) { stBase with inputs := [uA], addrUtxos := [uA] }) = some .insufficient := by
+  decide +kernel
+
+/-- `RefConsistent` cannot be dropped from `collat_distinct`: two entries sharing the reference `(aa, 0)` with
+different outputs are unequal for `UTxO.__eq__`, and both are taken -/
+theorem inconsistent_view_taken_twice :
+    ¬ ∀ (p : Params) (st : State) (r : Result), st.explicit = [] → run p st = .ok r →
+        (r.collaterals.map Utxo.ref).Nodup := by
+  intro h
+  have hr : run (cxParams 3) { stBase with inputs := [uA], addrUtxos := [uA'] } =
+      .ok ⟨[uA, uA'], some { addr := keyAddr, amount := ⟨2100000, []⟩ }, some 3000000⟩ :=
+    eq_ok_of_okResult (by decide +kernel)
+  have := h _ _ _ rfl hr
+  revert this; decide +kernel
+
+/-- collateral listed twice by the caller is still summed twice while the body names it once: the distinctness of
+explicit collateral is the caller's obligation (hypothesis `hd` of `collat_total_distinct_explicit`) -/
+theorem explicit_duplicate_counted_twice :
+    ¬ ∀ (p : Params) (st : State) (r : Result) (t : Int) (o : Output), run p st = .ok r → r.total = some t →
+        r.ret = some o → coinSum (bodyCollateral r.collaterals) - o.amount.coin = t := by
+  intro h
+  have hr : run (cxParams 3) { stBase with explicit := [uA, uA] } =
+      .ok ⟨[uA, uA], some { addr := keyAddr, amount := ⟨2000000, []⟩ }, some 3000000⟩ :=
+    eq_ok_of_okResult (by decide +kernel)
+  have := h _ _ _ 3000000 _ hr rfl rfl
+  revert this; decide +kernel
+
 /-! ## adequacy -/
 
-/-- what is exactly true of the declared total with the floor division of the code: it is
-`max_tx_fee * percent // 100`, i.e. within 99/100 of a lovelace below `max_tx_fee * percent / 100`; hence for every
-fee up to the maximum fee `fee * percent < total * 100 + 100` (the ledger's inequality can fail by less than one
-lovelace, see `collat_percent_counterexample`) -/
+/-- the declared total collateral is `⌈max_tx_fee · percent / 100⌉`, hence at least `percent` % of every fee up to
+the maximum fee: the ledger's `collateral · 100 ≥ fee · percent` -/
 theorem collat_percent (p : Params) (st : State) (r : Result) (t mf : Int) (h : run p st = .ok r)
     (ht : r.total = some t) (hm : maxTxFee p.fee st.refScriptSize = some mf) :
-    t = mf * p.percent / 100 ∧ mf * p.percent - 99 ≤ t * 100 ∧ t * 100 ≤ mf * p.percent ∧
-    ∀ fee : Int, 0 ≤ p.percent → fee ≤ mf → fee * p.percent < t * 100 + 100 := by
+    t = (mf * p.percent + 99) / 100 ∧ mf * p.percent ≤ t * 100 ∧ t * 100 ≤ mf * p.percent + 99 ∧
+    ∀ fee : Int, 0 ≤ p.percent → fee ≤ mf → fee * p.percent ≤ t * 100 := by
   rcases run_ok p st r h with ⟨_, rfl⟩ | ⟨addr, amt, _, _, h3, h4⟩
   · cases ht
   · obtain ⟨mf', hm', ha⟩ := collateralAmount_eq _ _ _ h3
     rw [hm] at hm'; cases hm'
-    obtain ⟨_, _, hr⟩ := finish_ok _ _ _ _ _ _ h4
+    obtain ⟨_, _, _, hr⟩ := finish_ok _ _ _ _ _ _ _ h4
     rcases hr with ⟨_, h', _⟩ | ⟨_, htot, _, _⟩
     · rw [h'] at ht; cases ht
     · rw [htot] at ht; cases ht
@@ -200,56 +246,51 @@ theorem collat_percent (p : Params) (st : State) (r : Result) (t mf : Int) (h : 
       have := Int.mul_le_mul_of_nonneg_right hf hp
       omega
 
-/-- GOAL: the declared total collateral is at least `percent` % of every fee up to the maximum fee. -/
-def collat_percent_goal : Prop :=
-  ∀ (p : Params) (st : State) (r : Result) (t mf fee : Int), run p st = .ok r → r.total = some t →
-    maxTxFee p.fee st.refScriptSize = some mf → 0 ≤ p.percent → fee ≤ mf → fee * p.percent ≤ t * 100
-
-/-- proved part: it holds when `max_tx_fee * percent` is a multiple of 100, and for every fee strictly below the
-maximum fee as soon as `percent ≥ 99` (every real transaction: the fee reaches `max_tx_fee` only for a transaction
-of maximal size using all execution units) -/
-theorem collat_percent_partial (p : Params) (st : State) (r : Result) (t mf fee : Int) (h : run p st = .ok r)
-    (ht : r.total = some t) (hm : maxTxFee p.fee st.refScriptSize = some mf) (hp : 0 ≤ p.percent) (hf : fee ≤ mf)
-    (hx : (mf * p.percent) % 100 = 0 ∨ (fee < mf ∧ 99 ≤ p.percent)) : fee * p.percent ≤ t * 100 := by
-  obtain ⟨h1, h2, h3, _⟩ := collat_percent p st r t mf h ht hm
+/-- with or without a declared total: what is forfeitable (Σ collateral inputs − return, nothing returned when no
+total is declared) is at least `percent` % of every fee up to the maximum fee -/
+theorem collat_adequate (p : Params) (st : State) (r : Result) (addr : Bytes) (mf fee : Int) (h : run p st = .ok r)
+    (hs : st.hasScripts = true) (hr : st.retAddr = some addr) (hm : maxTxFee p.fee st.refScriptSize = some mf)
+    (hp : 0 ≤ p.percent) (hf : fee ≤ mf) :
+    fee * p.percent ≤ (coinSum r.collaterals - (match r.ret with | some o => o.amount.coin | none => 0)) * 100 := by
+  have hc : collateralAmount p st.refScriptSize = some ((mf * p.percent + 99) / 100) := by
+    simp [collateralAmount, hm]
+  have hcov := collat_covers p st r addr _ h hs hr hc
   have hmul := Int.mul_le_mul_of_nonneg_right hf hp
-  rcases hx with hx | ⟨hlt, h99⟩
-  · omega
-  · have : (fee + 1) * p.percent ≤ mf * p.percent := Int.mul_le_mul_of_nonneg_right (by omega) hp
-    have e : (fee + 1) * p.percent = fee * p.percent + p.percent := by rw [Int.add_mul]; omega
+  cases ht : r.total with
+  | none =>
+    have : r.ret = none := by
+      have := ret_iff_total p st r h
+      rw [ht] at this
+      cases hret : r.ret with
+      | none => rfl
+      | some o => rw [hret] at this; cases this
+    rw [this]
+    simp only []
     omega
-
-def stBig (b : Int) : Params × State :=
-  ({ fee := cxFee b, percent := 150, cpb := 4310, maxCollateralInputs := 3 },
-   { inputs := [uBig], potential := [], addrUtxos := [], explicit := [], hasScripts := true, retAddr := some keyAddr,
-     threshold := 1000000, refScriptSize := 0 })
-
-/-- max fee 2 000 001, 150 %: total 3 000 001 where 3 000 001.5 is required of a fee equal to the maximum fee -/
-theorem collat_percent_counterexample : ¬ collat_percent_goal := by
-  intro h
-  have hr : run (stBig 2000001).1 (stBig 2000001).2 =
-      .ok ⟨[uBig], some { addr := keyAddr, amount := ⟨6999999, []⟩ }, some 3000001⟩ :=
-    eq_ok_of_okResult (by decide +kernel)
-  have := h _ _ _ 3000001 2000001 2000001 hr rfl (by decide +kernel) (by decide) (by decide)
-  revert this; decide
+  | some t =>
+    obtain ⟨o, ho, _, heq, _⟩ := collat_total p st r t h ht
+    obtain ⟨_, h1, _, _⟩ := collat_percent p st r t mf h ht hm
+    rw [ho]
+    simp only []
+    omega
 
 /-! ## number of collateral inputs -/
 
-/-- GOAL: a transaction that runs scripts, built with a return address and a positive collateral amount, names at
-least one and at most `max_collateral_inputs` distinct collateral inputs. -/
-def collat_count_goal : Prop :=
-  ∀ (p : Params) (st : State) (r : Result) (amt : Int), st.explicit = [] → st.hasScripts = true → st.retAddr.isSome →
-    collateralAmount p st.refScriptSize = some amt → 0 < amt → run p st = .ok r →
-    1 ≤ (bodyCollateral r.collaterals).length ∧ (bodyCollateral r.collaterals).length ≤ p.maxCollateralInputs
+/-- the limit holds for the builder's list itself, for automatic and for explicit collateral -/
+theorem collat_limit (p : Params) (st : State) (r : Result) (h : run p st = .ok r) (hs : st.hasScripts = true)
+    (hr : st.retAddr.isSome) : r.collaterals.length ≤ p.maxCollateralInputs := by
+  rcases run_ok p st r h with ⟨h0 | h0, _⟩ | ⟨addr, amt, _, _, _, h4⟩
+  · rw [hs] at h0; cases h0
+  · rw [h0] at hr; cases hr
+  · obtain ⟨hc, hl, _⟩ := finish_ok _ _ _ _ _ _ _ h4
+    rw [hc]; exact hl
 
-/-- proved part: at least one collateral input always; at most `max_collateral_inputs` when the candidate lists
-hold no more than that many eligible UTxOs (key-locked, more than 2 ADA) — the code itself never stops at the limit -/
-theorem collat_count_partial (p : Params) (st : State) (r : Result) (amt : Int) (ha : st.explicit = [])
-    (hs : st.hasScripts = true) (hr : st.retAddr.isSome) (hc : collateralAmount p st.refScriptSize = some amt)
-    (hpos : 0 < amt) (h : run p st = .ok r) :
-    1 ≤ (bodyCollateral r.collaterals).length ∧
-    ((st.inputs ++ st.potential ++ st.addrUtxos).countP eligible ≤ p.maxCollateralInputs →
-      (bodyCollateral r.collaterals).length ≤ p.maxCollateralInputs) := by
+/-- a transaction that runs scripts, built with a return address and a positive collateral amount, names at least
+one and at most `max_collateral_inputs` distinct collateral inputs -/
+theorem collat_count (p : Params) (st : State) (r : Result) (amt : Int) (hs : st.hasScripts = true)
+    (hr : st.retAddr.isSome) (hc : collateralAmount p st.refScriptSize = some amt) (hpos : 0 < amt)
+    (h : run p st = .ok r) :
+    1 ≤ (bodyCollateral r.collaterals).length ∧ (bodyCollateral r.collaterals).length ≤ p.maxCollateralInputs := by
   obtain ⟨addr, hr'⟩ := Option.isSome_iff_exists.1 hr
   have hcov := collat_covers p st r addr amt h hs hr' hc
   constructor
@@ -259,25 +300,22 @@ theorem collat_count_partial (p : Params) (st : State) (r : Result) (amt : Int) 
     cases hb : bodyCollateral r.collaterals with
     | nil => exact absurd hb this
     | cons _ _ => simp
-  · intro hle
-    have h1 : (bodyCollateral r.collaterals).length ≤ r.collaterals.length := (dedupRef_sublist _ _).length_le
-    rcases auto_collaterals p st r ha h with h0 | ⟨addr', amt', _, _, hcols⟩
-    · rw [h0]; simp [bodyCollateral, dedupRef]
-    · have hsub := selectAuto_sublist p.cpb amt' st.threshold addr' st
-      have hel := selectAuto_eligible p.cpb amt' st.threshold addr' st
-      have h2 : (selectAuto p.cpb amt' st.threshold addr' st).length
-          ≤ (popOrder st.inputs ++ popOrder st.potential ++ popOrder st.addrUtxos).countP eligible := by
-        have := hsub.countP_le (p := eligible)
-        rw [List.countP_eq_length.2 (by simpa using hel)] at this
-        exact this
-      rw [(popOrders_perm st).countP_eq] at h2
-      rw [hcols] at h1 ⊢
-      omega
+  · have h1 : (bodyCollateral r.collaterals).length ≤ r.collaterals.length := (dedupRef_sublist _ _).length_le
+    have h2 := collat_limit p st r h hs hr
+    omega
 
-/-- what the selection does guarantee about the number of inputs: it is minimal along its walk — no input is
-appended once the running total is adequate.  For every chosen input `u`, the inputs chosen before it (`pre`) left
-the loop condition true: their Σ was short of the collateral amount, or a return was due for it
-(`shouldAdd`) that would not reach its minimum ADA (`needMore`, the `while` condition of the code) -/
+/-- regression witness of 81c8cba: inputs `uA` (2.5 ADA) and `uC` (2.6 ADA, one token) are both needed; with limit 1
+the call is refused, with limit 2 it succeeds -/
+example :
+    errOf (run (cxParams 1) { stBase with inputs := [uA], potential := [uC] }) = some .tooMany ∧
+    okResult (run (cxParams 2) { stBase with inputs := [uA], potential := [uC] }) =
+      some ⟨[uA, uC], some { addr := keyAddr, amount := ⟨2100000, [([7], [([1], 5)])]⟩ }, some 3000000⟩ := by
+  decide +kernel
+
+/-- the selection is minimal along its walk — no input is appended once the running total is adequate.  For every
+chosen input `u`, the inputs chosen before it (`pre`) left the loop condition true: their Σ was short of the
+collateral amount, or a return was due for it (`shouldAdd`) that would not reach its minimum ADA (`needMore`, the
+`while` condition of the code) -/
 theorem collat_needed (p : Params) (st : State) (r : Result) (pre post : List Utxo) (u : Utxo)
     (ha : st.explicit = []) (h : run p st = .ok r) (hsplit : r.collaterals = pre ++ u :: post) :
     ∃ addr amt, st.retAddr = some addr ∧ collateralAmount p st.refScriptSize = some amt ∧
@@ -289,19 +327,6 @@ theorem collat_needed (p : Params) (st : State) (r : Result) (pre post : List Ut
     rw [← hc, hsplit, neededChain_append] at hn
     exact hn.2.1
 
-/-- inputs `uA` (2.5 ADA) and `uC` (2.6 ADA, one token), limit 1: both are chosen -/
-def stTwo : State :=
-  { inputs := [uA], potential := [uC], addrUtxos := [], explicit := [], hasScripts := true, retAddr := some keyAddr,
-    threshold := 1000000, refScriptSize := 0 }
-
-theorem collat_count_counterexample : ¬ collat_count_goal := by
-  intro h
-  have hr : run cxParams stTwo =
-      .ok ⟨[uA, uC], some { addr := keyAddr, amount := ⟨2100000, [([7], [([1], 5)])]⟩ }, some 3000000⟩ :=
-    eq_ok_of_okResult (by decide +kernel)
-  have := (h cxParams stTwo _ 3000000 rfl rfl rfl (by decide +kernel) (by decide) hr).2
-  revert this; decide +kernel
-
 /-! ## the return output -/
 
 /-- a collateral return output holds at least its minimum ADA -/
@@ -309,7 +334,7 @@ theorem return_min_ada (p : Params) (st : State) (r : Result) (o : Output) (h : 
     (ho : r.ret = some o) : minLovelace p.cpb o ≤ o.amount.coin := by
   rcases run_ok p st r h with ⟨_, rfl⟩ | ⟨addr, amt, _, _, _, h4⟩
   · cases ho
-  · obtain ⟨_, _, hr⟩ := finish_ok _ _ _ _ _ _ h4
+  · obtain ⟨_, _, _, hr⟩ := finish_ok _ _ _ _ _ _ _ h4
     rcases hr with ⟨h', _, _⟩ | ⟨hret, _, _, hm⟩
     · rw [h'] at ho; cases ho
     · rw [hret] at ho; cases ho
@@ -321,14 +346,14 @@ theorem return_threshold (p : Params) (st : State) (r : Result) (o : Output) (h 
     o.amount.coin > max st.threshold 1000000 ∨ MultiAsset.count o.amount.ma (fun _ _ q => decide (q > 0)) > 0 := by
   rcases run_ok p st r h with ⟨_, rfl⟩ | ⟨addr, amt, _, _, _, h4⟩
   · cases ho
-  · obtain ⟨_, _, hr⟩ := finish_ok _ _ _ _ _ _ h4
+  · obtain ⟨_, _, _, hr⟩ := finish_ok _ _ _ _ _ _ _ h4
     rcases hr with ⟨h', _, _⟩ | ⟨hret, _, hs, _⟩
     · rw [h'] at ho; cases ho
     · rw [hret] at ho; cases ho
       simpa [shouldAdd, retOutput] using hs
 
 /-- conversely, no return means nothing worth returning: at most max(threshold, 1 ADA) is forfeited beyond the
-collateral amount and no native asset is burnt (all collateral inputs well-formed) -/
+collateral amount -/
 theorem no_return_small (p : Params) (st : State) (r : Result) (addr : Bytes) (amt : Int) (h : run p st = .ok r)
     (hs : st.hasScripts = true) (hr : st.retAddr = some addr) (hc : collateralAmount p st.refScriptSize = some amt)
     (hn : r.ret = none) :
@@ -337,7 +362,7 @@ theorem no_return_small (p : Params) (st : State) (r : Result) (addr : Bytes) (a
   · rw [hs] at h0; cases h0
   · rw [hr] at h0; cases h0
   · rw [hc] at h3; cases h3
-    obtain ⟨hcols, _, hr'⟩ := finish_ok _ _ _ _ _ _ h4
+    obtain ⟨hcols, _, _, hr'⟩ := finish_ok _ _ _ _ _ _ _ h4
     rcases hr' with ⟨_, _, hsa⟩ | ⟨hret, _, _, _⟩
     · rw [hcols]
       simp only [shouldAdd, Bool.or_eq_false_iff, decide_eq_false_iff_not, subInt_coin, sumAmounts_coin] at hsa
@@ -361,29 +386,34 @@ theorem pop_order (l : List Utxo) :
 
 /-! ## non-vacuity -/
 
-/-- a wallet with pairwise distinct candidates in all three lists, a script-locked candidate and one of exactly
-2 ADA: the hypotheses of every `_partial` theorem hold, the run succeeds with a return and a declared total, the
-script-locked and the 2-ADA candidates are passed over, and the equations of `collat_total` are the concrete numbers -/
+/-- a wallet with candidates in all three lists, a script-locked candidate and one of exactly 2 ADA: the run
+succeeds with a return and a declared total, the script-locked and the 2-ADA candidates are passed over, and the
+equations of `collat_total` / `collat_percent` are the concrete numbers -/
 example :
     let uS : Utxo := { txid := [0xdd], ix := 0, out := { addr := [0x70, 9], amount := ⟨50000000, []⟩ } }
     let u2 : Utxo := { txid := [0xee], ix := 0, out := { addr := keyAddr, amount := ⟨2000000, []⟩ } }
-    let st : State := { inputs := [uS, u2], potential := [uA], addrUtxos := [uC, uBig], explicit := [], hasScripts := true,
-                        retAddr := some keyAddr, threshold := 1000000, refScriptSize := 0 }
-    ((st.inputs ++ st.potential ++ st.addrUtxos).map Utxo.ref).Nodup ∧
-    (st.inputs ++ st.potential ++ st.addrUtxos).countP eligible ≤ 3 ∧
-    collateralAmount cxParams st.refScriptSize = some 3000000 ∧
-    okResult (run cxParams st) =
+    let st : State := { stBase with inputs := [uS, u2], potential := [uA], addrUtxos := [uC, uBig] }
+    collateralAmount (cxParams 3) st.refScriptSize = some 3000000 ∧
+    okResult (run (cxParams 3) st) =
       some ⟨[uA, uC], some { addr := keyAddr, amount := ⟨2100000, [([7], [([1], 5)])]⟩ }, some 3000000⟩ ∧
     coinSum [uA, uC] - 2100000 = 3000000 ∧ qtySum [uA, uC] [7] [1] = 5 := by
   decide +kernel
 
-/-- explicit collateral skips the selection; an insufficient one is refused -/
+/-- rounding up: max fee 2 000 001 at 150 % requires 3 000 001.5, the declared total is 3 000 002 -/
 example :
-    okResult (run cxParams { stDup with explicit := [uBig] }) =
+    okResult (run { fee := cxFee 2000001, percent := 150, cpb := 4310, maxCollateralInputs := 3 }
+      { stBase with inputs := [uBig] }) =
+      some ⟨[uBig], some { addr := keyAddr, amount := ⟨6999998, []⟩ }, some 3000002⟩ := by
+  decide +kernel
+
+/-- explicit collateral skips the selection; an insufficient one is refused, too many are refused -/
+example :
+    okResult (run (cxParams 3) { stBase with inputs := [uA], explicit := [uBig] }) =
       some ⟨[uBig], some { addr := keyAddr, amount := ⟨7000000, []⟩ }, some 3000000⟩ ∧
-    errOf (run cxParams { stDup with explicit := [uA] }) = some .insufficient ∧
-    errOf (run cxParams { stDup with inputs := [], addrUtxos := [uC] }) = some .insufficient ∧
-    okResult (run cxParams { stDup with hasScripts := false }) = some ⟨[], none, none⟩ := by
+    errOf (run (cxParams 3) { stBase with explicit := [uA] }) = some .insufficient ∧
+    errOf (run (cxParams 1) { stBase with explicit := [uA, uBig] }) = some .tooMany ∧
+    errOf (run (cxParams 3) { stBase with addrUtxos := [uC] }) = some .insufficient ∧
+    okResult (run (cxParams 3) { stBase with inputs := [uBig], hasScripts := false }) = some ⟨[], none, none⟩ := by
   decide +kernel
 
 end Pyc.C13
@@ -394,17 +424,18 @@ end Pyc.C13
 #print axioms Pyc.C13.ret_iff_total
 #print axioms Pyc.C13.collat_total
 #print axioms Pyc.C13.collat_covers
-#print axioms Pyc.C13.collat_distinct_partial
-#print axioms Pyc.C13.stDup_run
-#print axioms Pyc.C13.collat_distinct_counterexample
-#print axioms Pyc.C13.collat_total_distinct_partial
-#print axioms Pyc.C13.collat_total_distinct_counterexample
+#print axioms Pyc.C13.collat_distinct
+#print axioms Pyc.C13.body_is_list
+#print axioms Pyc.C13.collat_total_distinct
+#print axioms Pyc.C13.collat_total_distinct_explicit
+#print axioms Pyc.C13.collat_covers_distinct
 #print axioms Pyc.C13.body_distinct
+#print axioms Pyc.C13.inconsistent_view_taken_twice
+#print axioms Pyc.C13.explicit_duplicate_counted_twice
 #print axioms Pyc.C13.collat_percent
-#print axioms Pyc.C13.collat_percent_partial
-#print axioms Pyc.C13.collat_percent_counterexample
-#print axioms Pyc.C13.collat_count_partial
-#print axioms Pyc.C13.collat_count_counterexample
+#print axioms Pyc.C13.collat_adequate
+#print axioms Pyc.C13.collat_limit
+#print axioms Pyc.C13.collat_count
 #print axioms Pyc.C13.collat_needed
 #print axioms Pyc.C13.return_min_ada
 #print axioms Pyc.C13.return_threshold
